@@ -52,13 +52,13 @@ CONFIGS: Dict[str, Dict[str, List[Dict[str, Any]]]] = {
         ],
     },
     "RubiksCube": {
-        "quick": [_c("default"), _c("n2s3L7", cube_size=2, scrambles=3, time_limit=7), _c("n2s1L1", cube_size=2, scrambles=1, time_limit=1), _c("mk_partlyL3", make_id="RubiksCube-partly-scrambled-v0", cube_size=3, scrambles=7, time_limit=3), _c("n2s5L41", cube_size=2, scrambles=5, time_limit=41)],
+        "quick": [_c("default"), _c("n2s3L7", cube_size=2, scrambles=3, time_limit=7), _c("n2s1L1", cube_size=2, scrambles=1, time_limit=1), _c("mk_partlyL3", make_id="RubiksCube-partly-scrambled-v0", cube_size=3, scrambles=7, time_limit=3), _c("n2s5L41", cube_size=2, scrambles=5, time_limit=41), _c("n2s3L300", cube_size=2, scrambles=3, time_limit=300, props=["C11"])],
         "thorough": [
             _c("default"), _c("n2s3L7", cube_size=2, scrambles=3, time_limit=7),
             _c("n4s7L20", cube_size=4, scrambles=7, time_limit=20), _c("n5s1L3", cube_size=5, scrambles=1, time_limit=3),
             _c("n3s0L2", cube_size=3, scrambles=0, time_limit=2), _c("n7s100L200", cube_size=7, scrambles=100, time_limit=200),
             _c("n6s2L1", cube_size=6, scrambles=2, time_limit=1), _c("n2s1L1", cube_size=2, scrambles=1, time_limit=1),
-            _c("n3s2L2", cube_size=3, scrambles=2, time_limit=2), _c("mk_partlyL3", make_id="RubiksCube-partly-scrambled-v0", cube_size=3, scrambles=7, time_limit=3), _c("mk_partlyL33", make_id="RubiksCube-partly-scrambled-v0", cube_size=3, scrambles=7, time_limit=33), _c("mk_L2", make_id="RubiksCube-v0", time_limit=2), _c("cu_pyreward", custom="pyreward", time_limit=6, props=["C01", "C02", "C03"]), _c("n2s2L5np", cube_size=2, scrambles=2, time_limit=5, tl_type="np.int32"), _c("n2s5L41", cube_size=2, scrambles=5, time_limit=41)
+            _c("n3s2L2", cube_size=3, scrambles=2, time_limit=2), _c("mk_partlyL3", make_id="RubiksCube-partly-scrambled-v0", cube_size=3, scrambles=7, time_limit=3), _c("mk_partlyL33", make_id="RubiksCube-partly-scrambled-v0", cube_size=3, scrambles=7, time_limit=33), _c("mk_L2", make_id="RubiksCube-v0", time_limit=2), _c("cu_pyreward", custom="pyreward", time_limit=6, props=["C01", "C02", "C03"]), _c("n2s2L5np", cube_size=2, scrambles=2, time_limit=5, tl_type="np.int32"), _c("n2s5L41", cube_size=2, scrambles=5, time_limit=41), _c("n2s3L300", cube_size=2, scrambles=3, time_limit=300, props=["C11"])
         ],
     },
     "SlidingTilePuzzle": {
@@ -119,34 +119,34 @@ CONFIGS: Dict[str, Dict[str, List[Dict[str, Any]]]] = {
         ],
     },
     "Tetris": {
-        "quick": [_c("default"), _c("r6c5L3", rows=6, cols=5, time_limit=3), _c("r5c8L12", rows=5, cols=8, time_limit=12)],
+        "quick": [_c("default"), _c("r6c5L3", rows=6, cols=5, time_limit=3), _c("r5c8L12", rows=5, cols=8, time_limit=12), _c("r6c5L300", rows=6, cols=5, time_limit=300, props=["C11"])],
         "thorough": [
             _c("default"), _c("r4c4L3", rows=4, cols=4, time_limit=3), _c("r6c5L3", rows=6, cols=5, time_limit=3), _c("r6c5L7", rows=6, cols=5, time_limit=7),
             _c("r5c12L30", rows=5, cols=12, time_limit=30), _c("r10c6L2", rows=10, cols=6, time_limit=2),
-            _c("r7c4L1", rows=7, cols=4, time_limit=1), _c("r5c8L12", rows=5, cols=8, time_limit=12), _c("mk_L4", make_id="Tetris-v0", time_limit=4), _c("r6c5L4np", rows=6, cols=5, time_limit=4, tl_type="np.int64"), _c("r10c10L41", rows=10, cols=10, time_limit=41)
+            _c("r7c4L1", rows=7, cols=4, time_limit=1), _c("r5c8L12", rows=5, cols=8, time_limit=12), _c("mk_L4", make_id="Tetris-v0", time_limit=4), _c("r6c5L4np", rows=6, cols=5, time_limit=4, tl_type="np.int64"), _c("r10c10L41", rows=10, cols=10, time_limit=41), _c("r6c5L300", rows=6, cols=5, time_limit=300, props=["C11"])
         ],
     },
     "Cleaner": {
         "quick": [_c("default"), _c("r5c11a2L7", rows=5, cols=11, agents=2, time_limit=7), _c("r4c7a1", rows=4, cols=7, agents=1), _c("r7c4a2", rows=7, cols=4, agents=2),
-                  _c("r6c5a2pint", rows=6, cols=5, agents=2, penalty=1), _c("r5c6a2p0", rows=5, cols=6, agents=2, penalty=0.0), _c("r5c6a2L5np", rows=5, cols=6, agents=2, time_limit=5, tl_type="np.int32"), _c("r5c6a2L47", rows=5, cols=6, agents=2, time_limit=47)],
+                  _c("r6c5a2pint", rows=6, cols=5, agents=2, penalty=1), _c("r5c6a2p0", rows=5, cols=6, agents=2, penalty=0.0), _c("r5c6a2L5np", rows=5, cols=6, agents=2, time_limit=5, tl_type="np.int32"), _c("r5c6a2L47", rows=5, cols=6, agents=2, time_limit=47), _c("r5c11a2L300", rows=5, cols=11, agents=2, time_limit=300, props=["C11"])],
         "thorough": [
             _c("default"), _c("r5c5a1", rows=5, cols=5, agents=1), _c("r5c11a2L7", rows=5, cols=11, agents=2, time_limit=7),
             _c("r11c5a3p0", rows=11, cols=5, agents=3, penalty=0.0), _c("r3c3a4L3", rows=3, cols=3, agents=4, time_limit=3),
             _c("r7c9a2L2", rows=7, cols=9, agents=2, time_limit=2), _c("r9c7a2L1", rows=9, cols=7, agents=2, time_limit=1),
             _c("r5c11a2", rows=5, cols=11, agents=2), _c("r4c7a1", rows=4, cols=7, agents=1), _c("r7c4a2", rows=7, cols=4, agents=2),
-            _c("r6c5a2pint", rows=6, cols=5, agents=2, penalty=1), _c("r5c6a2p0", rows=5, cols=6, agents=2, penalty=0.0), _c("mk_L5", make_id="Cleaner-v0", time_limit=5), _c("r5c6a2L5np", rows=5, cols=6, agents=2, time_limit=5, tl_type="np.int32"), _c("r5c6a2L47", rows=5, cols=6, agents=2, time_limit=47)
+            _c("r6c5a2pint", rows=6, cols=5, agents=2, penalty=1), _c("r5c6a2p0", rows=5, cols=6, agents=2, penalty=0.0), _c("mk_L5", make_id="Cleaner-v0", time_limit=5), _c("r5c6a2L5np", rows=5, cols=6, agents=2, time_limit=5, tl_type="np.int32"), _c("r5c6a2L47", rows=5, cols=6, agents=2, time_limit=47), _c("r5c11a2L300", rows=5, cols=11, agents=2, time_limit=300, props=["C11"])
         ],
     },
     "Connector": {
         "quick": [_c("default"), _c("u5a4L7", gen="uniform", grid_size=5, agents=4, time_limit=7),
                   _c("u5a4rwL20", gen="uniform", grid_size=5, agents=4, time_limit=20, reward_coeffs=[2.0, -0.5]),
-                  _c("w5a3rwintL15", grid_size=5, agents=3, time_limit=15, reward_coeffs=[3, -1]), _c("u5a3L41", gen="uniform", grid_size=5, agents=3, time_limit=41)],
+                  _c("w5a3rwintL15", grid_size=5, agents=3, time_limit=15, reward_coeffs=[3, -1]), _c("u5a3L41", gen="uniform", grid_size=5, agents=3, time_limit=41), _c("u5a4L300", gen="uniform", grid_size=5, agents=4, time_limit=300, props=["C11"])],
         "thorough": [
             _c("default"), _c("w3a1L3", grid_size=3, agents=1, time_limit=3), _c("u5a4L7", gen="uniform", grid_size=5, agents=4, time_limit=7),
             _c("w5a8L20", grid_size=5, agents=8, time_limit=20), _c("u4a3L2", gen="uniform", grid_size=4, agents=3, time_limit=2),
             _c("w6a4L1", grid_size=6, agents=4, time_limit=1), _c("u6a4", gen="uniform", grid_size=6, agents=4),
             _c("u5a4rwL20", gen="uniform", grid_size=5, agents=4, time_limit=20, reward_coeffs=[2.0, -0.5]),
-            _c("w5a3rwintL15", grid_size=5, agents=3, time_limit=15, reward_coeffs=[3, -1]), _c("mk_L4", make_id="Connector-v2", time_limit=4), _c("u5a3L6np", gen="uniform", grid_size=5, agents=3, time_limit=6, tl_type="np.int64"), _c("u5a3L41", gen="uniform", grid_size=5, agents=3, time_limit=41), _c("u5a3L97", gen="uniform", grid_size=5, agents=3, time_limit=97), _c("w5a3L61", grid_size=5, agents=3, time_limit=61)
+            _c("w5a3rwintL15", grid_size=5, agents=3, time_limit=15, reward_coeffs=[3, -1]), _c("mk_L4", make_id="Connector-v2", time_limit=4), _c("u5a3L6np", gen="uniform", grid_size=5, agents=3, time_limit=6, tl_type="np.int64"), _c("u5a3L41", gen="uniform", grid_size=5, agents=3, time_limit=41), _c("u5a3L97", gen="uniform", grid_size=5, agents=3, time_limit=97), _c("w5a3L61", grid_size=5, agents=3, time_limit=61), _c("u5a4L300", gen="uniform", grid_size=5, agents=4, time_limit=300, props=["C11"])
         ],
     },
     "CVRP": {
@@ -176,11 +176,11 @@ CONFIGS: Dict[str, Dict[str, List[Dict[str, Any]]]] = {
         ],
     },
     "Maze": {
-        "quick": [_c("default"), _c("r5c9L7", rows=5, cols=9, time_limit=7), _c("r4c7", rows=4, cols=7), _c("r7c4", rows=7, cols=4), _c("mk_L4", make_id="Maze-v0", time_limit=4), _c("r5c6L6np", rows=5, cols=6, time_limit=6, tl_type="np.int64"), _c("r5c6L47", rows=5, cols=6, time_limit=47)],
+        "quick": [_c("default"), _c("r5c9L7", rows=5, cols=9, time_limit=7), _c("r4c7", rows=4, cols=7), _c("r7c4", rows=7, cols=4), _c("mk_L4", make_id="Maze-v0", time_limit=4), _c("r5c6L6np", rows=5, cols=6, time_limit=6, tl_type="np.int64"), _c("r5c6L47", rows=5, cols=6, time_limit=47), _c("r5c9L300", rows=5, cols=9, time_limit=300, props=["C11"])],
         "thorough": [
             _c("default"), _c("r3c3", rows=3, cols=3), _c("r5c9L7", rows=5, cols=9, time_limit=7), _c("r9c4L3", rows=9, cols=4, time_limit=3),
             _c("toy", gen="toy"), _c("r5c9", rows=5, cols=9), _c("r7c6L2", rows=7, cols=6, time_limit=2), _c("r6c7L1", rows=6, cols=7, time_limit=1),
-            _c("r4c7", rows=4, cols=7), _c("r7c4", rows=7, cols=4), _c("mk_L4", make_id="Maze-v0", time_limit=4), _c("r5c6L6np", rows=5, cols=6, time_limit=6, tl_type="np.int64"), _c("r5c6L47", rows=5, cols=6, time_limit=47)
+            _c("r4c7", rows=4, cols=7), _c("r7c4", rows=7, cols=4), _c("mk_L4", make_id="Maze-v0", time_limit=4), _c("r5c6L6np", rows=5, cols=6, time_limit=6, tl_type="np.int64"), _c("r5c6L47", rows=5, cols=6, time_limit=47), _c("r5c9L300", rows=5, cols=9, time_limit=300, props=["C11"])
         ],
     },
     # MMST: the class docstring documents `connected_nodes` as (num_agents, time_limit); a user generator whose `max_step` buffer
@@ -243,11 +243,11 @@ CONFIGS: Dict[str, Dict[str, List[Dict[str, Any]]]] = {
     },
     "Sokoban": {
         # the registered default generator downloads the DeepMind dataset: not explorable offline
-        "quick": [_c("toy", gen="toy"), _c("randL7", gen="harness", border=False, time_limit=7), _c("rand", gen="harness", border=False, time_limit=40), _c("toyL47", gen="toy", time_limit=47)],
+        "quick": [_c("toy", gen="toy"), _c("randL7", gen="harness", border=False, time_limit=7), _c("rand", gen="harness", border=False, time_limit=40), _c("toyL47", gen="toy", time_limit=47), _c("toyL300", gen="toy", time_limit=300, props=["C11", "C03"])],
         "thorough": [
             _c("toy", gen="toy"), _c("simple", gen="simple"), _c("randL7", gen="harness", border=False, time_limit=7),
             _c("randborder", gen="harness", border=True, time_limit=60), _c("randsparseL3", gen="harness", border=False, reward="sparse", time_limit=3),
-            _c("toyL2", gen="toy", time_limit=2), _c("simpleL1", gen="simple", time_limit=1), _c("rand", gen="harness", border=False, time_limit=40), _c("cu_pyreward", custom="pyreward", time_limit=6, props=["C01", "C02", "C03"]), _c("toyL5np", gen="toy", time_limit=5, tl_type="np.int64"), _c("toyL47", gen="toy", time_limit=47)
+            _c("toyL2", gen="toy", time_limit=2), _c("simpleL1", gen="simple", time_limit=1), _c("rand", gen="harness", border=False, time_limit=40), _c("cu_pyreward", custom="pyreward", time_limit=6, props=["C01", "C02", "C03"]), _c("toyL5np", gen="toy", time_limit=5, tl_type="np.int64"), _c("toyL47", gen="toy", time_limit=47), _c("toyL300", gen="toy", time_limit=300, props=["C11", "C03"])
         ],
     },
     "TSP": {
